@@ -120,6 +120,10 @@ def unit(job, variant, pi, seed, quick, plan_len):
                 bad = [k for k in d if again.get(k) != d[k] or via_json.get(k) != d[k]]
                 out["failing"].append({"kind": "checkpoint-roundtrip", "job": job, "entities": bad[:5],
                                        "plan": [command_text(c) for c in cmds]})
+    if pi == 0 and a and a[0].playlogs:
+        # ... and for every value of every entity field, not only the values this plan reaches
+        for b in simlib.perturbed_roundtrip(a[0].playlogs[0].checkpoint.store_ckpt)[:2]:
+            out["failing"].append({"kind": "checkpoint-field-is-lost-on-restore", "job": job, "variant": variant, **b})
     out["ckpts"] = len(seen_ckpt)
     done = False
     at_cut = set(rng.sample(range(0, len(cmds) + 1), min(len(cmds) + 1, 6 if quick else 16)))
